@@ -242,6 +242,18 @@ def traced_configurations(rng, thorough):
                     threads=[W_("writer", tupled), W_("writer", plain, disable_tuple_notation=True)]))
     out.append(dict(wopt, name="json_writer-flags-extra-field-vs-strict", setup=wsetup,
                     threads=[W_("json_writer", extra), W_("json_writer", plain, strict=True)]))
+    # validate_many with invalid records (raise_errors=True) overlapping a validate_many of valid records
+    vs = {"type": "record", "name": "V", "fields": [{"name": "a", "type": "long"}, {"name": "s", "type": "string"}]}
+    good = [{"a": i, "s": "x%d" % i} for i in range(3)]
+    bad = [{"a": 1, "s": "ok"}, {"a": "not a long", "s": 5}, {"a": 2, "s": "ok"}]
+    vm = dict(mcalls=None, cap=None, fresh_setup=False, isolate=True, family="preempt", samples=1000, random=20 if not thorough else 200,
+              trace=[["_validation_py.py", "validate_many"]],
+              sig="C18:validate_many:overlapping-calls:result-differs-from-sequential")
+    V_ = lambda recs, **kw: [{"api": "validate_many", "schema": {"$slot": "VS"}, "records": recs, "kw": kw}]
+    vsetup = [{"api": "parse_schema", "schema": vs, "$out": "VS"}]
+    out.append(dict(vm, name="validate_many-invalid-raise-vs-valid", setup=vsetup, threads=[V_(bad, raise_errors=True), V_(good)]))
+    out.append(dict(vm, name="validate_many-invalid-noraise-vs-valid", setup=vsetup, threads=[V_(bad, raise_errors=False), V_(good, raise_errors=False)]))
+    out.append(dict(vm, name="validate_many-valid-vs-invalid-raise", setup=vsetup, threads=[V_(good + good), V_(bad, raise_errors=True)]))
     # the VERY FIRST write of the process done by several threads at once: the forked worker has imported fastavro and parsed
     # the schema, nothing has been written yet (the sequential reference comes from another process); line-level points in
     # the encoder's integer path
@@ -479,10 +491,8 @@ def forced(ctx, scratch, variant, thorough):
             # no decimal is decoded: the model (C18_sequential_*: empty shared write set) predicts the sequential result
             # under every schedule; nothing to evaluate
             mseq_t = []
-            for i, r in enumerate(seq):
-                if r["st"] != "ok":
-                    ctx.violation("corr:forced-schedule", dict(configuration=name, thread=i, op=c17.describe(threads[i][0])),
-                                  impl=r, model="ok", signature="C18:forced-schedule:sequential-run-raises", found_input=False)
+            # (an operation that raises when run alone - e.g. validate_many(raise_errors=True) on invalid records - is compared
+            #  like any other: same outcome under every schedule)
         else:
             mseq = core.coq_eval(["show_sequential %s g0 [%s]" % (variant, "; ".join(mcalls))], IMPORTS, ctx.workdir, tag="c18seq" + tagn)[0]
             mseq_t = parse_threads("0,0,0|" + mseq)[1]
